@@ -161,6 +161,8 @@ def types_for(tier):
         for i, d in enumerate(c06.depth3(tier)):
             if i % 3 == 0:
                 yield d
+    for d in T.medium(tier):  # more than three of everything
+        yield d
 
 
 INTR_ALPHA = T.LEAF7 + [T.ARR5[0], T.ARR5[1], T.ARR5[2]]
